@@ -267,6 +267,18 @@ def rule_d(ctx, cr):
               "pc == entry_address, which outside the VM loop is the case before anything ran "
               "(a failed direct line after a break would make CONT answer CAN'T CONTINUE)"
               % sorted(callers - END_CALLERS))
+    # the DATA read pointer belongs to the interrupted run: entering direct lines must not move it
+    w = set()
+    for p_, g in cr.fns.items():
+        for b, st, v in g.field_stores("data_pos"):
+            if st["place"]["proj"][-1].get("adt") == "mach::link::Link":
+                w.add(p_.rsplit("::", 1)[1])
+    ctx.check(w <= {"clear", "restore_data", "read_data", "default", "new"}, "C13.d",
+              "data_pos/writers", "", "Link.data_pos is written by %s" % sorted(w),
+              "Link.data_pos is now also written by %s: linking a direct line (PRINT, CONT itself) "
+              "during a break rewinds the DATA pointer of the interrupted program, so READ after "
+              "CONT starts over from the first DATA item" % sorted(w - {"clear", "restore_data",
+                                                                         "read_data"}))
     ex = cr.need_fn("mach::runtime::Runtime::execute")
     ctx.touch(ex)
     # the direct-errors stop: state = Stopped and no store to cont on that path
